@@ -148,3 +148,123 @@ def eval_pred(e, env):
             left = right
         return True
     raise Undecidable(ast.dump(e)[:80])
+
+
+def const_dispatch(fnode, module=None, discr=None):
+    """A dispatch on a constant key, in whichever of its forms the code uses, as {key: {variable: value node}}.
+
+        if d == 'K': a = X; b = Y   elif d == 'L': ...          (if-chain; also `d in ('K', 'L')`)
+        a, b = TABLE[d]  /  TABLE.get(d, default)                (TABLE a local or module-level dict literal of tuples)
+        a = TABLE[d]  /  TABLE.get(d)                            (dict literal of scalars)
+        match d: case 'K': a = X                                 (match statement)
+
+    discr: source text of the discriminating expression, or None = any. A key may carry several variables; a variable
+    assigned in the chain form only in some branches is simply absent from the others."""
+    out = {}
+
+    def add(key, var, val):
+        out.setdefault(key, {})[var] = val
+
+    def keys_of(test):
+        ks = []
+        for c in ([test] if isinstance(test, ast.Compare) else
+                  (test.values if isinstance(test, ast.BoolOp) and isinstance(test.op, ast.Or) else [])):
+            if not (isinstance(c, ast.Compare) and len(c.ops) == 1 and (discr is None or unparse(c.left) == discr)):
+                return []
+            if isinstance(c.ops[0], ast.Eq) and isinstance(c.comparators[0], ast.Constant):
+                ks.append(c.comparators[0].value)
+            elif isinstance(c.ops[0], ast.In) and isinstance(c.comparators[0], (ast.Tuple, ast.List, ast.Set)) \
+                    and all(isinstance(e, ast.Constant) for e in c.comparators[0].elts):
+                ks += [e.value for e in c.comparators[0].elts]
+            else:
+                return []
+        return ks
+
+    def assigns(stmts, keys):
+        for s_ in stmts:
+            if isinstance(s_, ast.Assign) and len(s_.targets) == 1:
+                t = s_.targets[0]
+                if isinstance(t, ast.Name):
+                    for k in keys:
+                        add(k, t.id, s_.value)
+                elif isinstance(t, ast.Tuple) and isinstance(s_.value, ast.Tuple) and len(t.elts) == len(s_.value.elts):
+                    for tt, vv in zip(t.elts, s_.value.elts):
+                        if isinstance(tt, ast.Name):
+                            for k in keys:
+                                add(k, tt.id, vv)
+            elif isinstance(s_, ast.Return) and s_.value is not None:
+                for k in keys:
+                    add(k, '<return>', s_.value)
+            elif isinstance(s_, ast.Expr) and isinstance(s_.value, ast.Yield) and s_.value.value is not None:
+                for k in keys:
+                    add(k, '<yield>', s_.value.value)
+
+    def literal(name_node):
+        """dict literal a Name refers to: local assignment in fnode, else module global"""
+        if isinstance(name_node, ast.Dict):
+            return name_node
+        if not isinstance(name_node, ast.Name):
+            return None
+        for n in ast.walk(fnode):
+            if isinstance(n, ast.Assign) and len(n.targets) == 1 and isinstance(n.targets[0], ast.Name) \
+                    and n.targets[0].id == name_node.id and isinstance(n.value, ast.Dict):
+                return n.value
+        if module is not None:
+            v = module.globals_.get(name_node.id)
+            if isinstance(v, ast.Dict):
+                return v
+        return None
+
+    # a table lookup in any position (`yield (kind, TABLE[d])`, `f(TABLE.get(d))`): variable '<lookup>'
+    for n in ast.walk(fnode):
+        tbl = key = None
+        if isinstance(n, ast.Subscript) and isinstance(n.ctx, ast.Load):
+            tbl, key = n.value, n.slice
+        elif isinstance(n, ast.Call) and isinstance(n.func, ast.Attribute) and n.func.attr == 'get' and n.args:
+            tbl, key = n.func.value, n.args[0]
+        if tbl is None or (discr is not None and unparse(key) != discr):
+            continue
+        d_ = literal(tbl) if isinstance(tbl, ast.Name) else None
+        if d_ is not None and d_.keys and all(isinstance(k, ast.Constant) for k in d_.keys):
+            for k, val in zip(d_.keys, d_.values):
+                add(k.value, '<lookup>', val)
+    for n in ast.walk(fnode):
+        if isinstance(n, ast.If):
+            ks = keys_of(n.test)
+            if ks:
+                assigns(n.body, ks)
+        elif isinstance(n, getattr(ast, 'Match', ())):
+            if discr is None or unparse(n.subject) == discr:
+                for case in n.cases:
+                    pats = case.pattern.patterns if isinstance(case.pattern, ast.MatchOr) else [case.pattern]
+                    ks = [p.value.value for p in pats if isinstance(p, ast.MatchValue) and isinstance(p.value, ast.Constant)]
+                    if ks:
+                        assigns(case.body, ks)
+        elif isinstance(n, (ast.Assign, ast.Return)) and n.value is not None:
+            v = n.value
+            tbl = key = None
+            if isinstance(v, ast.Subscript):
+                tbl, key = v.value, v.slice
+            elif isinstance(v, ast.Call) and isinstance(v.func, ast.Attribute) and v.func.attr == 'get' and v.args:
+                tbl, key = v.func.value, v.args[0]
+            if tbl is None or (discr is not None and unparse(key) != discr):
+                continue
+            d_ = literal(tbl)
+            if d_ is None or not d_.keys or not all(isinstance(k, ast.Constant) for k in d_.keys):
+                continue
+            if isinstance(n, ast.Return):
+                tg = '<return>'
+            elif len(n.targets) == 1:
+                tg = n.targets[0]
+            else:
+                continue
+            for k, val in zip(d_.keys, d_.values):
+                if isinstance(tg, ast.Tuple) and isinstance(val, ast.Tuple) and len(tg.elts) == len(val.elts):
+                    for tt, vv in zip(tg.elts, val.elts):
+                        if isinstance(tt, ast.Name):
+                            add(k.value, tt.id, vv)
+                elif isinstance(tg, ast.Name):
+                    add(k.value, tg.id, val)
+                elif tg == '<return>':
+                    add(k.value, '<return>', val)
+    return out
